@@ -444,6 +444,11 @@ src_stm
         {
             cmd := strings.TrimSpace($<intern>3.unquote($3))
             stagecodeParts := strings.Fields(cmd)
+            if len(stagecodeParts) == 0 {
+                // An empty src string.  Leave the path empty; the
+                // compiler reports that it cannot be found.
+                stagecodeParts = []string{""}
+            }
             $$ = &SrcParam{
                 Node: NewAstNode($<loc>1),
                 Lang: StageLanguage($<intern>2.Get($2)),
